@@ -146,6 +146,19 @@ func (s *LinearState) Load(ctx *Context) error {
 			return err
 		}
 		s.Facts[id] = RawFact{m, js}
+
+		// As in IndexedState.Load (via add): tell the hook about
+		// what was loaded so that, for example, an ephemeral cron
+		// gets the scheduled rules again.
+		if s.addHook != nil {
+			s.withPrivilege(ctx)
+			err = s.addHook(ctx, s, id, m, true)
+			s.withoutPrivilege(ctx)
+			if err != nil {
+				Log(ERROR, ctx, "LinearState.Load", "state", s.Name, "error", err, "when", "addHook", "id", id)
+				return err
+			}
+		}
 	}
 
 	Log(DEBUG, ctx, "LinearState.Load", "location", s.Name, "facts", len(s.Facts))
